@@ -21,6 +21,7 @@ REGISTRY = {
     'C15': e2props.c15,
     'C02': e2props.c02,
     'C11': e2props.c11,
+    'C14': e2props.c14,
     'C13': e2props.c13,
     'C17': e2props.c17,
     'C07': e2props.c07,
